@@ -77,6 +77,11 @@ Fixpoint wait_terms (sigma : var -> option poly) (l : list (var * Z)) : list (va
   end.
 Definition wait_step (sigma : var -> option poly) (p : poly) : poly :=
   let (ts, c) := wait_terms sigma (coeffs p) in mk ts (const p + c).
+(* While speculating (try_compute.depth > 0) _wait gives up at the first variable that is not ready,
+   before anything is written back; otherwise the substituted polynomial replaces the old one. *)
+Definition wait_mutation (speculating : bool) (sigma : var -> option poly) (p : poly) : poly :=
+  if speculating && negb (forallb (fun kv => match sigma (fst kv) with Some _ => true | None => false end) (coeffs p))
+  then p else wait_step sigma p.
 Definition all_ready (sigma : var -> option poly) (p : poly) : bool :=
   forallb (fun kv => match sigma (fst kv) with Some _ => true | None => false end) (coeffs p).
 
